@@ -34,6 +34,21 @@ for pid, text in {
 }.items():
     CLAIMED[pid] = dict(engine="db-diff", design="DESIGN.md 5 " + pid, text=text, note=DBNOTE, technique=DBTECH)
 
+CONOTE = "Trusted: Coq kernel; hand-written models JsonParse.v (json_parse.rs, parse_json_event, parse_json_filter, writers), Escape.v (json_escape/json_unescape/utf8), Hex.v, Codec.v; extraction; harness/runner/python judge; CPython json and hashlib as independent oracles; secp256k1 as is. Transfer to the code only as strong as the sampled agreement of this run."
+for pid, (text, tech) in {
+ "C01": ("PARTIAL proof: Coq theorems (4) that the integer members are read as exactly the value of their digit run and rejected - never wrapped - when they do not fit (kind > 65535, created_at >= 2^64). The parse/render theorem over the whole text grammar is not yet proved; faithfulness is decided per run: event texts rendered from the abstract syntax (random member orders / all 5040 in thorough, whitespace in every slot, every escape spelling, hex case, unknown members with nested values, trailing bytes, integer and tag-size boundaries, exact and larger buffers with three fills, mutated texts) are parsed by the implementation (both profiles), by the Coq parser model (exact agreement required) and by python's json module (independent oracle for all seven accessors and the consumed length).",
+         "Coq proof (integer readers) + differential correspondence impl vs parser model + independent JSON parser oracle"),
+ "C02": ("PARTIAL proof: hex round trip and 'the binary form is a function of the field values alone, independent of prior buffer contents' (from_parts/accessor theorems). Losslessness through the string escaper and canonicity across texts are decided per run: 5 texts per event differing in order/whitespace/escapes/unknown members into buffers with three fills + Event::from_parts must be byte-identical (== and Hash agree); as_json output must be valid JSON (python json) with the same seven values and parse back byte-identically; exact agreement with the model.",
+         "Coq proof (hex, encoding is a function of fields) + differential correspondence + byte-equality/independent-parser oracle"),
+ "C03": ("PARTIAL proof: Coq theorems (7) for ALL byte strings and capacities: json_unescape/json_escape never panic or exhaust fuel, unescape consumes <= input and writes <= capacity, hex decoding and address parsing are total and yield well-formed bytes. Totality of the event/filter/tags parser models is decided per run by a structured malformed stream (every prefix, single-byte corruptions incl. >= 0x80, deletions, nesting to 1.5M levels with the default 8 MiB stack, digit runs 1..40, 65534-65536 tag values, every output length 0..needed+16, 64 guard bytes each side) in both build profiles; accepted values are pushed through every accessor/serialiser. Real-memory effects beyond guard bytes cannot be exhibited by a Gallina model.",
+         "Coq proof (string/hex/address layers, explicit Panic/OutOfFuel outcomes) + differential correspondence over a structured malformed stream, both profiles, guard bytes"),
+ "C07": ("PARTIAL proof: integer members read as the value of their digit run, >= 2^64 rejected, accepted values fit. Faithfulness, order independence and the as_json round trip are decided per run: all 52x52 ordered letter pairs, random subsets/orders of members, escapes, unknown members, integer boundaries; python json as independent parser of both the input and as_json's output; exact agreement with the filter-parser model; both profiles.",
+         "Coq proof (integer readers) + differential correspondence + independent JSON parser oracle"),
+ "C08": ("PARTIAL proof: the canonical serialisation is the Coq function Codec.canon, total for every event, of the NIP-01 shape (theorem). That the id equals SHA-256 of it is decided per run against python's hashlib on the model's output; that verify accepts every sign_new event and the repository's fixture events and rejects every single-field mutation (bits of id/pubkey/sig, created_at+-1, kind+-1, every tag string, tag split/merge/swap/add, content edits, newline spelling) is decided against the real secp256k1. SHA-256 collision resistance and BIP-340 unforgeability are assumptions.",
+         "Coq model of the canonical serialisation + independent SHA-256 oracle + mutation enumeration on the implementation"),
+}.items():
+    CLAIMED[pid] = dict(engine="codec-diff", design="DESIGN.md 5 " + pid, text=text, note=CONOTE, technique=tech)
+
 checks = []
 for pid, c in sorted(CLAIMED.items()):
     checks.append({
